@@ -22,7 +22,7 @@ const wgtFrame = "pubsub/sync.WaitGroupTimeout"
 
 var wo = vlib.WaitOpts{Watchdog: 40 * time.Second, NoTimerCheck: []string{wgtFrame}}
 
-// runawayAfter: a context-aware stage gives up failing after that many deliveries with an ended context (the faults
+// runawayAfter: a stage stops processing (returns no output, no error) after that many deliveries; a context-aware stage gives up failing after that many deliveries with an ended context (the faults
 // of a case are at most 26, the messages at most 8 x 81: a correct Pub/Sub cannot cause that many).
 const runawayAfter = 20000
 
@@ -35,17 +35,18 @@ type fault struct {
 }
 
 type shape struct {
-	Stages   int     `json:"stages"`
-	FanOut   int     `json:"fan_out_stage"`                   // stage returning 2 outputs (-1 none)
-	Outs     []int   `json:"outputs_per_stage,omitempty"`     // when set: number of outputs of every stage (batch Publish calls on consecutive topics)
-	CtxAware []bool  `json:"context_aware_stage,omitempty"`   // the stage's handler works under the consumed message's context: a delivery whose context has ended fails at once
-	Modes    []int   `json:"output_mode_per_stage,omitempty"` // 0 fresh messages; 1 fresh messages carrying the consumed message's context; 2 the handler returns the consumed message itself (passthrough)
-	DupStage int     `json:"dup_handler_stage"`               // stage with two handlers on its topic (-1 none)
-	FanIn    bool    `json:"fan_in"`                          // two first stages (t0a, t0b) publishing into t1
-	Msgs     int     `json:"messages"`
-	Cfg      int     `json:"config"`
-	Faults   []fault `json:"faults"`
-	YieldP   float64 `json:"yield"`
+	Stages     int     `json:"stages"`
+	FanOut     int     `json:"fan_out_stage"`                   // stage returning 2 outputs (-1 none)
+	Outs       []int   `json:"outputs_per_stage,omitempty"`     // when set: number of outputs of every stage (batch Publish calls on consecutive topics)
+	EmptyTopic int     `json:"empty_topic,omitempty"`           // k>0: the topic between stage k-1 and stage k (or the final topic) is the empty string, a legal topic name
+	CtxAware   []bool  `json:"context_aware_stage,omitempty"`   // the stage's handler works under the consumed message's context: a delivery whose context has ended fails at once
+	Modes      []int   `json:"output_mode_per_stage,omitempty"` // 0 fresh messages; 1 fresh messages carrying the consumed message's context; 2 the handler returns the consumed message itself (passthrough)
+	DupStage   int     `json:"dup_handler_stage"`               // stage with two handlers on its topic (-1 none)
+	FanIn      bool    `json:"fan_in"`                          // two first stages (t0a, t0b) publishing into t1
+	Msgs       int     `json:"messages"`
+	Cfg        int     `json:"config"`
+	Faults     []fault `json:"faults"`
+	YieldP     float64 `json:"yield"`
 }
 
 // outs is the number of messages a stage's handler returns per input.
@@ -165,6 +166,14 @@ func enumShapes(maxFaults int) []shape {
 			}
 		}
 	}
+	// empty-topic block: a middle or the final topic is "" (legal for GoChannel and AddHandler)
+	for et := 1; et <= 2; et++ {
+		for _, fs := range [][]fault{nil, {{0, "handler-error", 0}}, {{1, "handler-panic", 0}}, {{0, "publisher-error", 0}}, {{1, "publisher-panic", 0}}} {
+			for cfg := 0; cfg < 12; cfg++ {
+				out = append(out, shape{Stages: 2, FanOut: -1, DupStage: -1, EmptyTopic: et, Msgs: 1 + cfg%2, Cfg: cfg, Faults: fs})
+			}
+		}
+	}
 	enumCache[maxFaults] = out
 	return out
 }
@@ -184,9 +193,10 @@ func init() {
 		Rule: "enumerated part: pipelines of 1..2 Router stages connected by GoChannel topics, 1..2 source messages, all 12 GoChannel configs {buffer 0/1/4 x persistent x blocking}, and EVERY placement of up to 1 (quick) / 2 (thorough) faults {handler error, handler panic, publisher error, publisher panic} on call 0..2 of any stage (exhaustive within these bounds: " + fmt.Sprint(len(enumShapes(1))) + " / " + fmt.Sprint(len(enumShapes(2))) + " cases); " +
 			"plus a batch block: 2 stages that both return 2 messages (batch Publish calls overlapping on consecutive topics) x 1..2 messages x 12 configs x every single fault; " +
 			"plus a context block: 2 stages where the outputs of stage 0 carry the consumed message's context (fresh message with that context / the consumed message itself) x 12 configs x every single fault; " +
+			"plus an empty-topic block: the middle or the final topic is the empty string x {no fault, 4 single faults} x 12 configs; " +
 			"plus a run block: one stage fails on 4 or 7 consecutive calls (each fault kind, and handler/publisher panics alternating) x 2 stages x 12 configs; " +
 			"plus a context-aware block: 2 stages whose handlers fail at once when the consumed message's context has ended x 12 configs x every single fault; " +
-			"random part: 1..4 stages, up to 12 faults on random calls plus (30%) a run of 3..10 consecutive failing calls of one stage, context-aware handlers on half of the stages of 40% of the cases, per-stage output mode {fresh, fresh with the consumed message's context, passthrough of the consumed message}, optional fan-out stage (2 outputs) or 1..3 outputs on every stage, optional stage with two handlers on its topic, optional fan-in (two first stages into one topic), 1..8 messages from 1..2 publisher goroutines, up to 12 faults on random calls, yield injection at the router/gochannel hook points. " +
+			"random part: 1..4 stages, in 15% of the cases one non-source topic is the empty string, up to 12 faults on random calls plus (30%) a run of 3..10 consecutive failing calls of one stage, context-aware handlers on half of the stages of 40% of the cases, per-stage output mode {fresh, fresh with the consumed message's context, passthrough of the consumed message}, optional fan-out stage (2 outputs) or 1..3 outputs on every stage, optional stage with two handlers on its topic, optional fan-in (two first stages into one topic), 1..8 messages from 1..2 publisher goroutines, up to 12 faults on random calls, yield injection at the router/gochannel hook points. " +
 			"Oracle at quiescence: every accepted source message has >=1 arrival per expected lineage at the sink subscription; every arrival's lineage is one the pipeline can produce from an accepted source message and its payload is intact; the consumed message of a stage is still unsettled when the Publish of its output returns nil; a source Publish never hangs; the process does not crash. " +
 			"Non-trivial: >=1 injected fault actually fired. Distinct = (shape, faults fired, hook fingerprint).",
 		Assumptions: []string{
@@ -220,6 +230,9 @@ func genRandom(e *vlib.Env) shape {
 		for i := 0; i < s.Stages; i++ {
 			s.CtxAware = append(s.CtxAware, r.Chance(0.5))
 		}
+	}
+	if r.Chance(0.15) {
+		s.EmptyTopic = r.Range(1, s.Stages)
 	}
 	if r.Chance(0.35) {
 		for i := 0; i < s.Stages; i++ {
@@ -341,7 +354,12 @@ func run(e *vlib.Env) vlib.Result {
 	defer ctl.Uninstall()
 	ps := gochannel.NewGoChannel(cfg, watermill.NopLogger{})
 	r, _ := message.NewRouter(message.RouterConfig{CloseTimeout: time.Hour}, watermill.NopLogger{})
-	topic := func(s int) string { return fmt.Sprintf("%s/t%d", id, s) }
+	topic := func(s int) string {
+		if sh.EmptyTopic > 0 && s == sh.EmptyTopic {
+			return ""
+		}
+		return fmt.Sprintf("%s/t%d", id, s)
+	}
 	srcTopics := []string{topic(0)}
 	if sh.FanIn {
 		srcTopics = append(srcTopics, id+"/t0b")
@@ -355,6 +373,10 @@ func run(e *vlib.Env) vlib.Result {
 			if k != "" {
 				w.fired = append(w.fired, fmt.Sprintf("s%d:%s@%d", stage, k, call))
 			}
+			over := w.hCalls[stage] > runawayAfter
+			if over {
+				w.runaway = true
+			}
 			dead := 0
 			if k == "" && sh.ctxAware(stage) && in.Context().Err() != nil {
 				w.deadCtx++
@@ -362,6 +384,10 @@ func run(e *vlib.Env) vlib.Result {
 			}
 			w.mu.Unlock()
 			w.events.Add(1)
+			if over {
+				// the faults of a case are finite, yet this stage keeps getting deliveries: end the loop so that the case can be judged
+				return nil, nil
+			}
 			if dead > 0 {
 				if dead > runawayAfter {
 					// the Pub/Sub keeps redelivering copies that cannot be processed: end the loop so that the case can be judged
@@ -573,7 +599,7 @@ func run(e *vlib.Env) vlib.Result {
 			res.Fail("payload-changed", "%s", b)
 		}
 		if w.runaway {
-			res.Fail("message-lost", "a stage that works under the consumed message's context was handed more than %d deliveries whose context had already ended although the subscription and the Pub/Sub were open: such a message can never be processed, the redeliveries never stop; faults fired: %v", runawayAfter, w.fired)
+			res.Fail("message-lost", "a stage was handed more than %d deliveries although the faults of the case are finite (%d deliveries had an already ended context): the message is redelivered for ever and never reaches the final topic; faults fired: %v", runawayAfter, w.deadCtx, w.fired)
 		}
 		res.Count("deliveries_with_ended_context_to_context_aware_stage", w.deadCtx)
 		for _, a := range w.ackedEarly {
